@@ -10,7 +10,7 @@
     Spec (C18/Spec.v): [lq_step]/[ls_step] are the FIFO/LIFO machines on a plain [list V];
     [added ops] are the values put in by the history, [removed ops outs] the values handed out by
     its successful Dequeue/Pop calls, both in call order. *)
-From Algo.C18 Require Import Model Spec Abs Proofs ProofsStack ProofsSoft ProofsOrder ProofsAbs.
+From Algo.C18 Require Import Model Spec Abs Unfixed Proofs ProofsStack ProofsSoft ProofsOrder ProofsAbs.
 From Coq Require Import Permutation.
 Open Scope Z_scope.
 
@@ -203,6 +203,16 @@ Example C18_example_softqueue :
   | _ => False
   end.
 Proof. vm_compute. reflexivity. Qed.
+
+(** Defect D18 (repaired in /repo by 713e226): the model of the code as it was before the fix
+    ([q_run_unfixed], C18/Unfixed.v: [rearIndex] not reset when a drained queue allocates a fresh
+    first block) panics on "fill one block, drain it, enqueue" for each of these block sizes,
+    so the property was refuted by the unfixed code; the model of the current code does not. *)
+Theorem C18_D18_unfixed_code_refuted :
+  forallb (fun ns => is_panic (q_run_unfixed Z 0 Z.eqb (Z.of_nat ns) (d18_witness ns)) &&
+                     is_ok (q_run Z 0 Z.eqb (Z.of_nat ns) (d18_witness ns)))
+          [1; 2; 3; 4; 5; 7; 8; 64]%nat = true.
+Proof. exact d18_unfixed_panics_fixed_does_not. Qed.
 
 (** The hypothesis [1 <= nodeSize] is necessary: with block size 0 the first Enqueue panics. *)
 Example C18_example_blocksize_zero_panics :
